@@ -5,14 +5,21 @@
 (*   [interleave(key)], [submit(tampering)]                                *)
 (* recorded from a real node (harness/cmd/c09).  Every line carries the    *)
 (* result class (res) and the projection taken after the step (obs): the   *)
-(* three keys (value, version), the four balances and the abstract form of *)
+(* three keys (value, version) as read on the executing node (keys), on a  *)
+(* second node that has only the stored data - merged with a node reopened *)
+(* on a copy of the data where that was done - (cold), by a range read on  *)
+(* either (scan, cscan), the key of the write record each stored version   *)
+(* refers to (ref), the same keys of another contract's bucket (foreign),  *)
+(* the four balances and the abstract form of                              *)
 (* the pre-execution response.  A line is explained iff the action of      *)
 (* Contract.tla it names, taken from the specification's current state,    *)
 (* yields that result and that projection.  The specification is           *)
 (* deterministic given the line, except for the read set of the response,  *)
 (* which is constrained, not pinned (it must contain every key the         *)
 (* program's results depend on, each with its current version; further     *)
-(* keys are taken over from the recording).                                *)
+(* keys are taken over from the recording), and for the verdict on         *)
+(* tamperings of the form only (Contract!FormOnly: either verdict), where  *)
+(* the recorded verdict selects among the allowed outcomes.                *)
 (* With KF_* constants TRUE the deviating clauses are enabled; dev         *)
 (* collects the deviations that changed a response or an outcome.          *)
 (***************************************************************************)
